@@ -899,4 +899,48 @@ Proof.
   apply scans_app; [apply (call_scans "_subword" eq_refl eq_refl)|].
   apply scans_app; [apply close_scans|]. apply blank_scans.
 Qed.
+
+Lemma shape_fn_scans sid t :
+  exists n, scans command n (append (write_subword_shape_fn command sid t) nl) (shape_fn_stmts command sid t).
+Proof.
+  destruct (sub_suffix_ok "_subword_shape_" sid eq_refl eq_refl) as [S1 S2].
+  eexists. unfold write_subword_shape_fn, shape_fn_stmts.
+  rewrite tpl_shape_header, tpl_shape_call, tpl_close_shape.
+  set (A := (("_" ++ command ++ ("_subword_shape_" ++ sN sid) ++ " () {") ++ nl)%string).
+  set (F := (("    _" ++ command ++ "_subword" ++ " ""$1"" ""$2""" ++ "") ++ nl)%string).
+  set (G := ("}" ++ nl)%string).
+  rewrite !append_assoc.
+  change ([SFunc (fn_name command ("_subword_shape_" ++ sN sid))] ++
+          match_stmts t ++ completion_stmts t ++ [SCall (fn_name command "_subword"); SEnd])
+    with ([SFunc (fn_name command ("_subword_shape_" ++ sN sid))] ++
+          match_stmts t ++ completion_stmts t ++ [SCall (fn_name command "_subword")] ++ [SEnd] ++ []).
+  apply scans_app; [apply (header_scans _ S1 S2 eq_refl)|].
+  apply scans_app; [apply match_scans|].
+  apply scans_app; [apply completion_scans|].
+  apply scans_app; [apply (call_scans "_subword" eq_refl eq_refl)|].
+  apply scans_app; [apply close_scans|]. apply blank_scans.
+Qed.
+
+Lemma shape_wrapper_scans id sid t acc :
+  exists n, scans command n (append (write_subword_shape_wrapper_fn command id sid t acc) nl)
+                  (shape_wrapper_stmts command id sid t acc).
+Proof.
+  destruct (sub_suffix_ok "_subword_" id eq_refl eq_refl) as [S1 S2].
+  destruct (sub_suffix_ok "_subword_shape_" sid eq_refl eq_refl) as [T1 T2].
+  eexists. unfold write_subword_shape_wrapper_fn, shape_wrapper_stmts.
+  rewrite tpl_shape_wrapper_header, tpl_shape_wrapper_call, tpl_close_shape_wrapper.
+  set (A := (("_" ++ command ++ ("_subword_" ++ sN id) ++ " () {") ++ nl)%string).
+  set (F := (("    _" ++ command ++ ("_subword_shape_" ++ sN sid) ++ " ""$1"" ""$2""" ++ "") ++ nl)%string).
+  set (G := ("}" ++ nl)%string).
+  rewrite !append_assoc.
+  change [SFunc (fn_name command ("_subword_" ++ sN id)); acc_stmt acc; lits_stmt t;
+          SCall (fn_name command ("_subword_shape_" ++ sN sid)); SEnd]
+    with ([SFunc (fn_name command ("_subword_" ++ sN id))] ++ [acc_stmt acc] ++ [lits_stmt t] ++
+          [SCall (fn_name command ("_subword_shape_" ++ sN sid))] ++ [SEnd] ++ []).
+  apply scans_app; [apply (header_scans _ S1 S2 eq_refl)|].
+  apply scans_app; [apply accepting_scans|].
+  apply scans_app; [apply literals_scans|].
+  apply scans_app; [apply (call_scans _ T1 T2)|].
+  apply scans_app; [apply close_scans|]. apply blank_scans.
+Qed.
 End Wrappers.
